@@ -312,6 +312,7 @@ fn main() {
         }
         "secret-roundtrip" => { rt().block_on(secrets::run(cases, seed)); }
         "folder-ops" => { rt().block_on(folderops::run(cases, seed)); }
+        "repro-db-shared-secret-id" => { rt().block_on(folderops::repro_db_shared_secret_id()); }
         "plaintext-scan" => { rt().block_on(folderops::run_scan(cases, seed)); }
         "log-ops" => { rt().block_on(logops::run(cases, seed)); }
         "merge-patches" => { rt().block_on(mergeops::run(cases, seed)); }
